@@ -22,6 +22,10 @@ func main() {
 		cmdSSA(os.Args[2:])
 	case "check":
 		os.Exit(gvc.CmdCheck(os.Args[2:]))
+	case "scan":
+		cmdScan(os.Args[2:])
+	case "replay":
+		os.Exit(gvc.CmdReplay(os.Args[2:]))
 	case "selftest":
 		os.Exit(gvc.CmdSelftest(os.Args[2:]))
 	default:
@@ -147,5 +151,24 @@ func cmdVerify(args []string) {
 	}
 	if bad > 0 {
 		os.Exit(1)
+	}
+}
+
+func cmdScan(args []string) {
+	fs := flag.NewFlagSet("scan", flag.ExitOnError)
+	repo := fs.String("repo", "/repo", "")
+	fs.Parse(args)
+	P := load(*repo)
+	if os.Getenv("GVC_DEBUG") != "" {
+		P.DebugScan()
+	}
+	for _, group := range [][]gvc.ScanSite{P.ScanGlobalWrites(), P.ScanStdout(), P.ScanContainment(), P.ScanImmutable()} {
+		for _, s := range group {
+			st := "FAIL"
+			if s.OK {
+				st = "ok  "
+			}
+			fmt.Printf("%s %-70s %v  %s %s\n", st, s.Name, s.Props, s.Why, s.Assume)
+		}
 	}
 }
